@@ -271,12 +271,12 @@ func (c *Ctx) srcFuncs() []*ssa.Function {
 			out = append(out, f)
 		}
 	}
-	sort.Slice(out, func(i, j int) bool {
-		if out[i].Pos() != out[j].Pos() {
-			return out[i].Pos() < out[j].Pos()
-		}
-		return out[i].String() < out[j].String()
-	})
+	// order by (file, offset): token.Pos across files depends on the (parallel) parse order and is not stable
+	key := func(f *ssa.Function) string {
+		p := c.fset.Position(f.Pos())
+		return fmt.Sprintf("%s:%09d:%s", p.Filename, p.Offset, f.String())
+	}
+	sort.Slice(out, func(i, j int) bool { return key(out[i]) < key(out[j]) })
 	return out
 }
 
